@@ -350,7 +350,48 @@ def t18_vis(run, fx, floors):
         run.floor("T18-VIS", "CharStringVisitor::visit impls", n, 4)
 
 
+def t18_vsi(run, fx):
+    rule = "T18-VSI"
+    run.rule(rule, "blend: the ItemVariationData index handed to cff2::scalars is the charstring's vsindex operand if one was seen, else the "
+                   "Private DICT's vsindex (CFF2 specification: the DICT value is the default), never a constant")
+    bs = [b for b in fx.bodies if b.path.endswith("CharStringVisitorContext::<'a, 'data>::visit_impl") and b.kind != "Closure"]
+    if len(bs) != 1:
+        return run.anchor_missing(rule, "visit_impl")
+    b = bs[0]
+    fam = fx.family(b)
+    sites = [(fb, bi, t) for fb in fam for bi, t in fb.calls() if callee_is(t, "cff::cff2::scalars")]
+    if not sites:
+        return run.anchor_missing(rule, "call to cff2::scalars in visit_impl")
+    for fb, bi, t in sites:
+        prov = sym.Prov(fb)
+        v = prov.op(t["args"][0])
+        uses_field = any(x[0] == "field" and x[2] == "vsindex" for x in sym.walk(v))
+        # the fallback closure consults the Private DICT
+        dict_default = False
+        for x in sym.walk(v):
+            if x[0] == "call" and (x[4] or x[1] or "").endswith(("unwrap_or_else", "or_else", "map_or_else")):
+                for a in x[2]:
+                    for y in sym.walk(a):
+                        if y[0] == "agg" and y[1] == "closure":
+                            pass
+        for cb in fam:
+            if cb.kind == "Closure" and any(callee_is(t2, "Dict::<T>::get_i32") for _, t2 in cb.calls()):
+                cprov = sym.Prov(cb)
+                for _, t2 in cb.calls():
+                    if callee_is(t2, "Dict::<T>::get_i32"):
+                        recv = sym.show(sym.strip(cprov.op(t2["args"][0])))
+                        op = sym.strip(cprov.op(t2["args"][1]))
+                        if "private_dict" in recv and (op[0] == "agg" and op[2] == "VSIndex" or "VSIndex" in sym.show(op)):
+                            dict_default = True
+        if uses_field and dict_default:
+            run.ok(rule, "scalars(vsindex or Private DICT vsindex, ..)")
+        else:
+            run.fail(rule, "blend:vsindex-default", "the variation data index for blend does not fall back to the Private DICT vsindex (charstring vsindex used: %s, DICT default: %s)" % (uses_field, dict_default), fb.loc(t))
+
+
 def check(run, fx, tier, floors=True):
+    if floors or any(b.path.endswith("::visit_impl") for b in fx.bodies):
+        t18_vsi(run, fx)
     t18_ops(run, fx, floors)
     dom = t18_vop(run, fx, floors)
     t18_disp(run, fx, dom, floors)
